@@ -65,8 +65,11 @@ prop("C02", ["contracts.c02_server", "contracts.c06_localnode"], ["OnRequest", "
               "Network.send_message does not raise (env/net.py)"],
      not_decided=["block transfer on the server side (not implemented by the library: refused with 0x05040001)"])
 
-prop("C01", ["contracts.c01_client"], ["WsInit", "WsWriteSegment", "WsWriteExpedited", "WsClose", "RsInit", "RsRead", "ReqResp", "Upload", "Download"],
-     assumed=["SdoClient.request_response as seen by the streams (env/sdoclient.py); the real function is contracted in ReqResp"],
+prop("C01", ["contracts.c01_client"], ["WsInit", "WsWriteSegment", "WsWriteExpedited", "WsClose", "RsInit", "RsRead", "ReqResp", "Upload", "Download", "WsWriteProgress"],
+     bounded=[("bounded.roundtrip", "typed_roundtrip")],
+     assumed=["SdoClient.request_response as seen by the streams (env/sdoclient.py); the real function is contracted in ReqResp",
+              "upload(): the stream's read() hands back the server's bytes (conclusion of the per-segment contracts RsInit/RsRead); "
+              "composition over whole transfers and the io layer is exercised only by the bounded stand-in"],
      not_decided=["CPython io.BufferedWriter/BufferedReader/TextIOWrapper internals (assumed contract), text-mode decoding, real time"])
 
 prop("C20", ["contracts.c20_views"], ["EncodeBits", "DecodeBits", "GetBits", "BitsSetItem", "BitsAfterOtherView", "DecodeDesc", "EncodeDesc"],
@@ -110,3 +113,46 @@ prop("C13", ["contracts.c01_client", "contracts.c12_blockdown", "contracts.c13_b
      not_decided=["'any corruption ends in an error' rests on the strength of CRC-16, not on this code",
                   "the end-to-end claim for every value length and loss pattern is only covered by the bounded stand-in; "
                   "timing of _retransmit's deadline loop"])
+
+prop("C08", ["contracts.c04_codec", "contracts.c08_eds"], ["CalcBitLength", "SignedIntFromHex", "BuildVariableNumbers", "OdLookup"],
+     bounded=[("bounded.eds", "import_described")],
+     assumed=["trusted axioms about CPython text/number conversion: int(text_of(n), 0) == n for the spellings 0x%X and %d; "
+              "a numeric text stays the text of the same number under .upper() and removal of blanks and never contains '$NODEID'",
+              "RawConfigParser reduced to get / has_option over a map (env/cfg.py)"],
+     not_decided=["import_eds as a whole (regex section classification, RawConfigParser parsing, comprehensions, $NODEID text "
+                  "forms, CompactSubObj expansion, device info, comments): covered only by the bounded stand-in"])
+
+prop("C14", ["contracts.c04_codec", "contracts.c08_eds"], ["RevertConvert", "BuildVariableNumbers", "SignedIntFromHex", "CalcBitLength"],
+     bounded=[("bounded.eds", "export_import_roundtrip")],
+     assumed=["trusted axioms about CPython text/number conversion (see C08); f\"0x{v:02X}\" of a negative v is \"0x-…\", which int(., 0) rejects"],
+     not_decided=["export_eds / import_eds document assembly (datetime, RawConfigParser.write, destination handling): "
+                  "covered only by the bounded stand-in"])
+
+prop("C03", ["contracts.c01_client", "contracts.c02_server", "contracts.c03_typed", "contracts.c04_codec", "contracts.c06_localnode",
+             "contracts.c08_eds", "contracts.c10_network"],
+     ["RawSet", "RawGet", "SdoGetItem", "CobIds", "OdLookup", "EncodeRaw", "DecodeRaw", "EncodeDecode", "Download", "Upload",
+      "WsInit", "WsWriteSegment", "WsWriteExpedited", "WsClose", "RsInit", "RsRead", "ReqResp", "OnRequest", "OnRequestFresh",
+      "NodeGetData", "NodeSetData", "Subscribe", "Notify"],
+     bounded=[("bounded.roundtrip", "typed_roundtrip")],
+     assumed=["the chain raw -> encode_raw -> download -> frames -> on_request -> set_data -> data_store -> get_data -> frames -> upload -> "
+              "decode_raw is composed from the per-function contracts listed; the composition over whole transfers (every payload, "
+              "every chunking) is exercised end to end only by the bounded stand-in",
+              "sequential execution (A4): inline delivery of responses"],
+     not_decided=["the schedules half of the quantifier: responses delivered later by another thread, the threaded virtual bus, "
+                  "1..8 concurrent client threads (queue.Queue and send_lock are trusted)",
+                  "REAL32/64 values and string codecs (CPython); a string ending in NUL does not round-trip because decode strips trailing NULs"])
+
+prop("C06", ["contracts.c01_client", "contracts.c02_server", "contracts.c04_codec", "contracts.c06_localnode"],
+     ["OnRequest", "OnRequestFresh", "NodeGetData", "NodeSetData", "ReqResp", "DecodeWrongLength"],
+     assumed=["node behind the server reduced to get_data / set_data for the server contract (env/sdonode.py); abstract object "
+              "dictionary for the node contracts (env/od.py)"],
+     not_decided=["'no value' is accepted as either 0x060A0023 (what the pinned test-suite expects) or 0x08000024"])
+
+prop("C07", ["contracts.c01_client", "contracts.c02_server", "contracts.c12_blockdown", "contracts.c13_blockup"],
+     ["ReqResp", "WsInit", "WsWriteSegment", "WsWriteExpedited", "RsInit", "RsRead", "BdInit", "BdSend", "BdClose", "BuInit", "BuRead",
+      "OnRequest", "OnRequestFresh"],
+     bounded=[("bounded.roundtrip", "disturbed_transfers")],
+     assumed=["every single disturbance of a response frame is covered by quantifying the response bytes universally in the per-step "
+              "contracts; 'does not poison the next transfer' = ReqResp discards whatever was queued before the request (arbitrary stale content) "
+              "and every stream starts from its own fresh state"],
+     not_decided=["timing races (a late response arriving after the flush and before the real response)"])
